@@ -938,6 +938,7 @@ Definition diff_classes : list (string * list string * list string) :=
     ("md-underline-sigil", ["Underline"], ["tree"; "idem"]);
     ("md-raw-hyperlink", ["raw-hyperlink"], ["perr"; "tree"]);
     ("md-figure-table", ["FigureTable"], ["perr"; "tree"]);
+    ("md-inline-code-escape", ["inline-code-special"], ["perr"; "tree"; "idem"]);
     ("comma-swizzle", ["comma-swizzle"], ["tree"; "perr"]) ].
 
 Definition find_class (classes : list (string * list string * list string)) (feat : list string) (sym : string) : option string :=
